@@ -91,6 +91,15 @@ type hworld struct {
 // fresh login of every user".
 var verified = map[string]bool{}
 
+// A violation may leave package-level state of the code under test damaged
+// in ways the harness cannot restore (it restores the role table and the
+// group registry only).  If, after a violation has been reported, a fresh
+// world no longer starts correctly, the process is tainted: exploration
+// stops (exhaustive=false) instead of reporting consequences that would not
+// reproduce from their own replay artefact.
+var histReported int
+var histTainted bool
+
 func (h *hconfig) fresh() seqx.World {
 	// The role table is package-level state: restore it from the pristine
 	// copy.  (The oracle of the previous execution has already compared it.)
@@ -112,7 +121,11 @@ func (h *hconfig) fresh() seqx.World {
 			v, _ = judge("C08/join", lc, c.InGroup(), c.Username(), c.Permissions(), nil)
 		}
 		if v != nil && w.init == nil {
-			w.init = v
+			if histReported > 0 {
+				histTainted = true
+			} else {
+				w.init = v
+			}
 		}
 		w.members = append(w.members, c)
 	}
@@ -158,6 +171,9 @@ func (w *hworld) settle() {
 
 func (w *hworld) Ops() []seqx.Op {
 	var ops []seqx.Op
+	if histTainted {
+		return nil
+	}
 	for _, k := range hkinds {
 		for _, u := range w.cfg.users {
 			ops = append(ops, hop{u.Name, k})
@@ -176,7 +192,11 @@ func (w *hworld) member(name string) *rtpconn.VerifC08Client {
 }
 
 func (w *hworld) Apply(o seqx.Op) *core.Violation {
+	if histTainted {
+		return nil
+	}
 	if w.init != nil {
+		histReported++
 		return w.init
 	}
 	x := o.(hop)
@@ -195,6 +215,7 @@ func (w *hworld) Apply(o seqx.Op) *core.Violation {
 		return nil
 	}
 	if v := w.oracle(fmt.Sprintf("%q applied to the session of %s", x.Kind, x.Target)); v != nil {
+		histReported++
 		return v
 	}
 	verified[key] = true
@@ -309,6 +330,10 @@ func runHistory(res *core.Result, h *hconfig) {
 	group.VerifC08RestoreRoleTable(pristine)
 	group.VerifC08ResetGroups()
 	vrt.ResetTasks()
+	if histTainted {
+		sub.Exhaustive = false
+		sub.Note = "stopped early: after a reported violation a fresh world no longer started correctly (package-level state of the code under test damaged beyond what the harness restores); " + sub.Note
+	}
 	sub.Bound = fmt.Sprintf("%s; %d member sessions (%s) x %d action kinds; after every action a fresh GetPermission and a fresh real join of each of the %d users",
 		sub.Bound, len(h.users), userList(h), len(hkinds), len(h.users))
 	res.AddSub(sub)
